@@ -48,6 +48,15 @@ func words(b []byte) []int {
 	return out
 }
 
+// rsRoundRows is rsRound with the words of the given parity rows (1-based) logged for TLC.
+func rsRoundRows(lg *tracelog.Log, rng *rand.Rand, cs c07Case, length, g int, rows []int) error {
+	wordRows = rows
+	defer func() { wordRows = nil }()
+	return rsRound(lg, rng, cs, length, g, true)
+}
+
+var wordRows []int
+
 func rsRound(lg *tracelog.Log, rng *rand.Rand, cs c07Case, length, g int, withWords bool) error {
 	var coder rsec16.Coder
 	var err error
@@ -81,10 +90,28 @@ func rsRound(lg *tracelog.Log, rng *rand.Rand, cs c07Case, length, g int, withWo
 			dw[i] = words(orig[i])
 		}
 		pw := make([][]int, cs.P)
+		prows := []int{}
 		for i := range pw {
 			pw[i] = words(parity[i])
+			if wordRows == nil {
+				prows = append(prows, i+1)
+			}
 		}
-		ev["dwords"], ev["pwords"] = dw, pw
+		if wordRows != nil {
+			prows = wordRows
+			for i := range pw {
+				keep := false
+				for _, r := range wordRows {
+					if r == i+1 {
+						keep = true
+					}
+				}
+				if !keep {
+					pw[i] = []int{}
+				}
+			}
+		}
+		ev["dwords"], ev["pwords"], ev["prows"] = dw, pw, prows
 	}
 	inD := make([][]byte, cs.D)
 	inP := make([][]byte, cs.P)
@@ -277,8 +304,50 @@ func runC07B(args []string) error {
 					if err := rsRound(lg, rng, cs, 16, 3, false); err != nil {
 						return err
 					}
+					// a third missing column and parity rows {0, e, e+1}: solvable, but elimination meets a
+					// zero pivot in the second column and must swap rows (also of the wide right-hand side)
+					if b+2 < cs.D || a > 0 {
+						third := cs.D
+						cs3 := c07Case{Coder: "vandermonde", D: cs.D, P: e + 2, Expect: "none", AvailP: []int{1, e + 1, e + 2}}
+						for i := 1; i <= cs3.D; i++ {
+							if i != a+1 && i != b+1 && i != third {
+								cs3.AvailD = append(cs3.AvailD, i)
+							}
+						}
+						if err := rsRound(lg, rng, cs3, 34, 2, false); err != nil {
+							return err
+						}
+					}
 					found++
 					break
+				}
+			}
+		}
+	}
+	// a coding coefficient equal to 0xffff (the last row of every multiplication table): the smallest
+	// (column, exponent) with Const(column)^exponent = 0xffff, shards long enough for the SIMD blocks
+	// and a scalar tail; TLC recomputes that parity row from the definitions
+	{
+		cj, ce := -1, -1
+		for e := 1; e < 300 && cj < 0; e++ {
+			for j := 0; j < 400; j++ {
+				if gfref.Pow16(consts[j], uint64(e)) == 0xffff {
+					cj, ce = j, e
+					break
+				}
+			}
+		}
+		if cj >= 0 {
+			cs := c07Case{Coder: "vandermonde", D: cj + 2, P: ce + 1, Expect: "none"}
+			for i := 1; i <= cs.D; i++ {
+				if i != cj+1 {
+					cs.AvailD = append(cs.AvailD, i)
+				}
+			}
+			cs.AvailP = []int{ce + 1}
+			for _, g := range []int{1, 2} {
+				if err := rsRoundRows(lg, rng, cs, 72, g, []int{ce + 1}); err != nil {
+					return err
 				}
 			}
 		}
